@@ -25,17 +25,32 @@ type c08Case struct {
 	Stage2 []string // nil = one processor only
 	Dests  int
 	Reject string // "" or "<dest>:<record>[:<piece>]"
+	// NoMatch: records that do not match the condition of the first processor (nil = the processor has no condition)
+	NoMatch []int
+}
+
+func (c c08Case) skipsStage1(i int) bool {
+	for _, n := range c.NoMatch {
+		if n == i {
+			return true
+		}
+	}
+	return false
 }
 
 func (c c08Case) String() string {
-	return fmt.Sprintf("%s n=%d stage1=%s stage2=%s dests=%d reject=%q", c.Engine, c.N, strings.Join(c.Stage1, ""), strings.Join(c.Stage2, ""), c.Dests, c.Reject)
+	cond := ""
+	if c.NoMatch != nil {
+		cond = fmt.Sprintf(" nomatch=%v", c.NoMatch)
+	}
+	return fmt.Sprintf("%s n=%d stage1=%s stage2=%s dests=%d reject=%q%s", c.Engine, c.N, strings.Join(c.Stage1, ""), strings.Join(c.Stage2, ""), c.Dests, c.Reject, cond)
 }
 
 // expected outcome of record i according to the documented semantics.
 func (c c08Case) expected(i int) (outcome string, pieces []string) {
 	pieces = []string{""}
-	for _, st := range [][]string{c.Stage1, c.Stage2} {
-		if st == nil {
+	for si, st := range [][]string{c.Stage1, c.Stage2} {
+		if st == nil || (si == 0 && c.skipsStage1(i)) {
 			continue
 		}
 		switch st[i] {
@@ -69,7 +84,12 @@ func (c c08Case) params() flowParams {
 	if c.Engine == "v1" {
 		p.Batch = 1
 	}
-	p.Procs = append(p.Procs, procParam{ID: "p1", Kinds: c.Stage1})
+	p1 := procParam{ID: "p1", Kinds: c.Stage1}
+	if c.NoMatch != nil {
+		p1.Cond = "match"
+		p.NoMatch = c.NoMatch
+	}
+	p.Procs = append(p.Procs, p1)
 	if c.Stage2 != nil {
 		p.Procs = append(p.Procs, procParam{ID: "p2", Kinds: c.Stage2})
 	}
@@ -172,6 +192,40 @@ func TestVerifC08(t *testing.T) {
 			}
 		}
 	}
+	// a processor with a condition: every subset of non-matching records x result kinds of the matching ones (short
+	// output included), alone and in front of a second processor
+	condN := []int{2, 3}
+	if verifkit.Thorough() {
+		condN = []int{2, 3, 4}
+	}
+	for _, n := range condN {
+		allPass := make([]string, n)
+		for i := range allPass {
+			allPass[i] = "p"
+		}
+		for _, v := range kindVectors(n, []string{"p", "e", "s", "f"}) {
+			for mask := 1; mask < 1<<n-1; mask++ { // at least one matching and one non-matching record
+				var nm []int
+				skipKinds := false
+				for i := 0; i < n; i++ {
+					if mask>>i&1 == 1 {
+						nm = append(nm, i)
+						if v[i] != "p" {
+							skipKinds = true // the kind of a record the processor never sees does not matter: keep one representative
+						}
+					}
+				}
+				if skipKinds {
+					continue
+				}
+				cases = append(cases, c08Case{Engine: "v2", N: n, Stage1: v, Dests: 1, NoMatch: nm})
+				if n <= 3 {
+					cases = append(cases, c08Case{Engine: "v2", N: n, Stage1: v, Stage2: allPass, Dests: 1, NoMatch: nm})
+				}
+			}
+		}
+	}
+	rep.Bound("conditional_batches_max", condN[len(condN)-1])
 	rep.Bound("hole_batches_max", holeN[len(holeN)-1])
 	rep.Bound("cases_total", len(cases))
 	rep.Bound("max_batch", maxN)
@@ -303,8 +357,11 @@ func checkC08(c c08Case, x *verifkit.Exec) []verifkit.Violation {
 			}
 		case "delivered":
 			wantPath := "p1,"
+			if c.skipsStage1(i) {
+				wantPath = ""
+			}
 			if c.Stage2 != nil {
-				wantPath = "p1,p2,"
+				wantPath += "p2,"
 			}
 			for pth := range r.paths {
 				if pth != wantPath {
